@@ -13,6 +13,7 @@ import (
 	"os"
 	"path/filepath"
 	"sort"
+	"strconv"
 	"strings"
 )
 
@@ -742,6 +743,96 @@ func main() {
 			fmt.Printf(", ")
 		}
 		fmt.Printf("%q", w)
+	}
+	fmt.Println("]")
+	fmt.Println()
+	// ---- the rule key (C06): every strings.Join in package model whose first argument is not a local error list —
+	// these build the keys of PolicyMap — with its separator resolved (a literal, or the value of a package constant)
+	mdFiles, _ := filepath.Glob(filepath.Join(root, "model", "*.go"))
+	sort.Strings(mdFiles)
+	consts := map[string]string{}
+	type joinUse struct{ fn, sep string }
+	var joins []joinUse
+	var mdParsed []*ast.File
+	for _, f := range mdFiles {
+		if strings.HasSuffix(f, "_test.go") {
+			continue
+		}
+		af, err := parser.ParseFile(fset, f, nil, 0)
+		if err != nil {
+			fmt.Fprintln(os.Stderr, "parse error:", err)
+			os.Exit(1)
+		}
+		mdParsed = append(mdParsed, af)
+		for _, d := range af.Decls {
+			gd, ok := d.(*ast.GenDecl)
+			if !ok || gd.Tok != token.CONST {
+				continue
+			}
+			for _, sp := range gd.Specs {
+				vs, ok := sp.(*ast.ValueSpec)
+				if !ok {
+					continue
+				}
+				for i, n := range vs.Names {
+					if i < len(vs.Values) {
+						if bl, ok := vs.Values[i].(*ast.BasicLit); ok && bl.Kind == token.STRING {
+							if v, err := strconv.Unquote(bl.Value); err == nil {
+								consts[n.Name] = v
+							}
+						}
+					}
+				}
+			}
+		}
+	}
+	for _, af := range mdParsed {
+		for _, d := range af.Decls {
+			fd, ok := d.(*ast.FuncDecl)
+			if !ok || fd.Body == nil {
+				continue
+			}
+			ast.Inspect(fd.Body, func(x ast.Node) bool {
+				call, ok := x.(*ast.CallExpr)
+				if !ok || len(call.Args) != 2 {
+					return true
+				}
+				sel, ok := call.Fun.(*ast.SelectorExpr)
+				if !ok || sel.Sel.Name != "Join" {
+					return true
+				}
+				if id, ok := sel.X.(*ast.Ident); !ok || id.Name != "strings" {
+					return true
+				}
+				if id, ok := call.Args[0].(*ast.Ident); ok && id.Name == "ms" {
+					return true // the list of missing section names in an error message
+				}
+				sep := "?"
+				switch a := call.Args[1].(type) {
+				case *ast.BasicLit:
+					if v, err := strconv.Unquote(a.Value); err == nil {
+						sep = v
+					}
+				case *ast.Ident:
+					if v, ok := consts[a.Name]; ok {
+						sep = v
+					} else {
+						sep = "?" + a.Name
+					}
+				}
+				joins = append(joins, joinUse{fd.Name.Name, sep})
+				return true
+			})
+		}
+	}
+	fmt.Println("/-- every place in package model that joins a rule into its PolicyMap key: (function, separator) -/")
+	fmt.Println("def ruleKeyJoins : List (String × String) := [")
+	for i, j := range joins {
+		sep := ","
+		if i == len(joins)-1 {
+			sep = ""
+		}
+		fmt.Printf("  (%q, %q)%s\n", j.fn, j.sep, sep)
 	}
 	fmt.Println("]")
 	fmt.Println()
